@@ -13,7 +13,7 @@ LEVEL = {
  "C05": ("proof", "Theorems (Coq, axiom-free): records eol I = split on EOL minus the empty piece after a final EOL; the buffered algorithm indexes exactly those lines for every non-empty input; the forward reader's walk prints exactly the selected lines for every ascending bounds list and fails exactly on an unresolvable bound without fallback (C05_forward); on every input both algorithms print the same (C05_buffered_same). Tied to the code by correspondence of both algorithms with the model and by the forward-vs-buffered pair oracle on the implementation, incl. inputs larger than the 64 KiB read buffer."),
  "C06": ("proof", "Theorem C06_byte_mode_exact: for every input, every resolvable bounds list and any format text the model prints exactly the bytes at the selected positions in request order and nothing else; empty input gives empty output."),
  "C07": ("proof", "Proved: on every valid UTF-8 record the fields character mode indexes are exactly its scalar encodings, whole and in order. Assumed and exercised, not proved: the regex crate's \\b|\\B matches at exactly the scalar boundaries."),
- "C08": ("proof", "Theorem C08_element_roundtrip: every element the JSON writer emits is read back by a strict reader as exactly the part's text (all escapes). Framing and one-element-per-part are the executable model, compared with the code; every output line is also parsed by an independent strict JSON reader."),
+ "C08": ("proof", "Theorems (Coq, axiom-free): every element the JSON writer emits is read back by a strict reader as exactly the part's text (all escapes, control bytes by kernel enumeration); the line printed for a record is read back by a strict one-pass array reader as exactly the list of parts (C08_array_roundtrip); with the settings --json installs, for every parsed bounds list without format text (also complemented) and every record, the general path prints nothing (-s), a bare EOL (record empty, possibly after -t) or exactly one array whose elements are, bound by bound, one string per part of a range and one for a fallback (C08_one_element_per_part, C08_record_is_one_array). UTF-8 validity is a premise inside the model (invalid text fails the record). Tied to the code by correspondence on every case and by Python's strict json.loads on every output line."),
  "C09": ("proof", "Theorems: rewriting any subset of in-range negative indexes to n+1-k leaves try_into_range, range expansion, complement, the whole of byte mode and the output loops of the general path and of the fast lane unchanged. Path switches caused by the rewriting are covered by C02/C05 and by the pair oracle on the implementation."),
  "C10": ("proof", "Theorems C10_general_path / C10_fast_path: the run over (A + EOL) + B is the run over A + EOL followed by the run over B, including what a failure delivers. The model cuts each record by a function of that record alone; that the code's reused buffers do not leak between records is checked by the correspondence run and the (A, B, A||B) oracle, -M included."),
  "C11": ("proof", "Proved: record splitting, field locations (plain and greedy), trimming and -p commute with every injective renaming of bytes, in particular with exchanging LF and NUL; CR is like any other byte. The whole-run statement is checked by the pair oracle (ARGS on I) vs (-z ARGS on swap(I)) on the implementation for every record/line mode."),
